@@ -468,29 +468,268 @@ def classify_getn(case, m):
     return "short" if m.get("w") == "0" else "complete-len%s" % m.get("w")
 
 
+# ---------------------------------------------------------------- the regenerated functions (gen/c2coq.py)
+# src_tagged_* cases run the REAL C on one side and, on the model side, the Gallina functions that
+# gen/c2coq.py regenerated from the current src/varintTagged.c (coq/gen/Src_tagged.v): this validates the
+# translator itself (a test, not a proof).  Only admissible inputs (the buffers the C needs) are generated;
+# destinations are exact-size and printed whole.  The oracles below state the property on the C output.
+
+SRC_TRUSTED = ["gen/c2coq.py (C-to-Gallina translator: clang 14 typed AST -> coq/gen/Src_tagged.v; supported subset and "
+               "assumptions in its docstring) and coq/theories/CSem.v (meaning of the c_* operations, LP64, two's "
+               "complement, gcc's implementation-defined choices); validated per run only by executing the generated "
+               "functions against the C (src_tagged_* cases)"]
+SRC_ASSUME = ["Properties_*_src.v are about src_<f>, the rendering of the CURRENT source text regenerated on every run; "
+              "that rendering is tied to the compiled C by the translator + CSem.v (trusted), not by proof; byte lists "
+              "stand for the objects the pointer arguments point to (a buffer shorter than the C needs is outside the "
+              "theorems' hypotheses)"]
+
+
+def _rbuf(rng, n):
+    return [rng.randint(0, 255) for _ in range(n)]
+
+
+def _fixed_bytes(x, w):
+    if w == 1:
+        return [x]
+    if w == 2:
+        return [241 + (x - 240) // 256, (x - 240) % 256]
+    if w == 3:
+        return [249, (x - 2288) // 256, (x - 2288) % 256]
+    return [246 + w] + list(x.to_bytes(w - 1, "big"))
+
+
+def generate_src_put(rng, tier):
+    n = 400 if tier == "quick" else 20000
+    pool = _pool(rng)
+    vals = pool + [rand_u64(rng) for _ in range(n)]
+    for x in vals:
+        need = len(ref_put(x))
+        L = need if rng.random() < 0.5 else rng.randint(need, 12)
+        yield "src_tagged_put %d %s" % (x, hexs(_rbuf(rng, L)))
+        yield "src_tagged_len %d" % x
+        yield "src_tagged_lenq %d" % x
+        if x <= 0xFFFFFFFF and rng.random() < 0.5:
+            yield "src_tagged_put32 %d %s" % (x, hexs(_rbuf(rng, rng.randint(need, 10))))
+    for x in rng.sample(pool, min(len(pool), 150 if tier == "quick" else len(pool))) + [rand_u64(rng) for _ in range(n // 4)]:
+        for w in range(0, 11):
+            L = w if (1 <= w <= 9 and rng.random() < 0.5) else rng.randint(9, 12)
+            yield "src_tagged_fixed %d %d %s" % (x, w, hexs(_rbuf(rng, L)))
+            yield "src_tagged_fixedq %d %d %s" % (x, w, hexs(_rbuf(rng, L)))
+
+
+def generate_src_get(rng, tier):
+    n = 600 if tier == "quick" else 20000
+    pool = _pool(rng)
+    for v in pool:
+        bs = ref_put(v)
+        init = rand_u64(rng)
+        yield "src_tagged_getlen %s" % hexs(bs[:1] + _rbuf(rng, rng.randint(0, 2)))
+        # every truncation, n = what is there (the C is told the truth)
+        for k in range(0, len(bs) + 1):
+            yield "src_tagged_get %s %d %d" % (hexs(bs[:k]), k, init)
+        # complete varint in an exact-size buffer, any n (the reader must not go beyond the varint)
+        yield "src_tagged_get %s %d %d" % (hexs(bs), rng.choice([len(bs), 9, 10, 2147483647, -1, 0, -2147483648]), init)
+        yield "src_tagged_get64 %s %d" % (hexs(bs), init)
+        yield "src_tagged_get32 %s %d" % (hexs(bs), init & 0xFFFFFFFF)
+        yield "src_tagged_getrv %s" % hexs(bs)
+        yield "src_tagged_getq %s" % hexs(bs)
+        yield "src_tagged_getlenq %s" % hexs(bs[:1])
+    for _ in range(n):
+        a0 = rng.choice([rng.randint(0, 255), rng.randint(238, 255)])
+        need = ref_len_first(a0)
+        bs = [a0] + _rbuf(rng, need - 1 + rng.randint(0, 3))
+        k = rng.randint(0, len(bs))
+        yield "src_tagged_get %s %d %d" % (hexs(bs[:k]), rng.choice([k, k, rng.randint(-2, k)]), rand_u64(rng))
+        yield "src_tagged_get64 %s %d" % (hexs(bs), rand_u64(rng))
+
+
+def generate_src_add(rng, tier):
+    n = 400 if tier == "quick" else 10000
+    pool = _pool(rng)
+    for _ in range(n):
+        v = rng.choice(pool) if rng.random() < 0.6 else rand_u64(rng)
+        add = rng.choice([1, -1, 240, -240, 2288, -2288, 65536, (1 << 32), -(1 << 32), (1 << 63) - 1, -(1 << 63)]) \
+            if rng.random() < 0.5 else (rng.choice(pool) - _to_s64(v))
+        add = max(-(1 << 63), min((1 << 63) - 1, add))
+        bs = ref_put(v)
+        yield "src_tagged_add %s %d %d" % (hexs(bs + _rbuf(rng, 9 - len(bs) + rng.randint(0, 2))), add, rng.randint(0, 1))
+
+
+def _src_out(c):
+    if "fault" in c:
+        return None, "fault=%s (access outside the exact-size buffer)" % c["fault"]
+    if c.get("buf") in ("lo", "hi"):
+        return None, "write outside the destination (%s)" % c["buf"]
+    return (list(bytes.fromhex(c["buf"][1:])) if "buf" in c else None), None
+
+
+def o_src_put(args, c):
+    x, buf = int(args[0]), list(bytes.fromhex(args[1][1:]))
+    out, err = _src_out(c)
+    if err:
+        return err
+    enc = ref_put(x)
+    if int(c["ret"]) != len(enc) or out[:len(enc)] != enc:
+        return "wrote %s (returned %s), the documented encoding of %d is %s" % (c["buf"], c["ret"], x, hexs(enc))
+    if out[len(enc):] != buf[len(enc):]:
+        return "bytes beyond the %d bytes of the encoding were modified" % len(enc)
+    return None
+
+
+def o_src_fixed(args, c):
+    x, w, buf = int(args[0]), int(args[1]), list(bytes.fromhex(args[2][1:]))
+    out, err = _src_out(c)
+    if err:
+        return err
+    if not _legal_fixed(x, w):
+        return None
+    enc = _fixed_bytes(x, w)
+    if int(c["ret"]) != w or out[:w] != enc:
+        return "fixed-width writer wrote %s (returned %s), expected %s" % (c["buf"], c["ret"], hexs(enc))
+    if out[w:] != buf[w:]:
+        return "bytes beyond width %d were modified" % w
+    return None
+
+
+def o_src_fixedq(args, c):
+    x, w, buf = int(args[0]), int(args[1]), list(bytes.fromhex(args[2][1:]))
+    out, err = _src_out(c)
+    if err:
+        return err
+    if not _legal_fixed(x, w):
+        return None
+    if out[:w] != _fixed_bytes(x, w) or out[w:] != buf[w:]:
+        return "fixed-width macro wrote %s, expected %s then the old bytes" % (c["buf"], hexs(_fixed_bytes(x, w)))
+    return None
+
+
+def o_src_len(args, c):
+    x = int(args[0])
+    return None if int(c.get("ret", -1)) == len(ref_put(x)) else "length %s, the encoding of %d has %d bytes" % (c.get("ret"), x, len(ref_put(x)))
+
+
+def o_src_getlen(args, c):
+    bs = list(bytes.fromhex(args[0][1:]))
+    if "fault" in c:
+        return "fault=" + c["fault"]
+    return None if int(c["ret"]) == ref_len_first(bs[0]) else "length %s read from first byte %d" % (c["ret"], bs[0])
+
+
+def _o_src_get(bs, n, init, c, mask=U64):
+    if "fault" in c:
+        return "read at or beyond the declared size (fault=%s)" % c["fault"]
+    w, v = ref_get(bs[:max(0, min(n, len(bs)))])
+    if int(c["ret"]) != w:
+        return "returned width %s, expected %d" % (c["ret"], w)
+    want = (v & mask) if w else init
+    if "v" in c and int(c["v"]) != want:
+        return "stored value %s, expected %d" % (c["v"], want)
+    return None
+
+
+def o_src_get(args, c):
+    return _o_src_get(list(bytes.fromhex(args[0][1:])), int(args[1]), int(args[2]), c)
+
+
+def o_src_get64(args, c):
+    return _o_src_get(list(bytes.fromhex(args[0][1:])), 9, int(args[1]), c)
+
+
+def o_src_get32(args, c):
+    bs = list(bytes.fromhex(args[0][1:]))
+    w, v = ref_get(bs[:9])
+    # varintTaggedGetVarint32 stores (uint32_t)iRes unconditionally (iRes = 0 when nothing was decoded)
+    return _o_src_get(bs, 9, 0, c, 0xFFFFFFFF)
+
+
+def o_src_getrv(args, c):
+    bs = list(bytes.fromhex(args[0][1:]))
+    if "fault" in c:
+        return "fault=" + c["fault"]
+    w, v = ref_get(bs[:9])
+    return None if int(c["ret"]) == (v if w else 0) else "returned %s, expected %s" % (c["ret"], v if w else 0)
+
+
+def o_src_none(args, c):
+    return ("fault=" + c["fault"]) if "fault" in c else None
+
+
+SRC_ORACLES_PUT = {"src_tagged_put": o_src_put, "src_tagged_put32": o_src_put, "src_tagged_fixed": o_src_fixed,
+                   "src_tagged_len": o_src_len, "src_tagged_lenq": o_src_len, "src_tagged_fixedq": o_src_fixedq}
+SRC_ORACLES_GET = {"src_tagged_getlen": o_src_getlen, "src_tagged_get": o_src_get, "src_tagged_get64": o_src_get64,
+                   "src_tagged_get32": o_src_get32, "src_tagged_getrv": o_src_getrv, "src_tagged_getq": o_src_getrv,
+                   "src_tagged_getlenq": o_src_getlen}
+
+
+def classify_src(case, m):
+    api = case.split(" ", 1)[0]
+    return ("src-%s-ret%s" % (api[11:], m.get("ret"))) if api.startswith("src_tagged_") else None
+
+
+def search_src(rng, divergent):
+    yield from generate_src_put(random.Random(rng.getrandbits(32)), "thorough")
+
+
+def _chain(*gens):
+    def g(rng, tier):
+        for f in gens:
+            yield from f(random.Random(rng.getrandbits(48)), tier)
+    return g
+
+
+def _first(*fs):
+    def f(case, m):
+        for h in fs:
+            r = h(case, m)
+            if r is not None:
+                return r
+        return None
+    return f
+
+
+def _searches(*fs):
+    def f(rng, divergent):
+        for h in fs:
+            yield from h(random.Random(rng.getrandbits(48)), divergent)
+    return f
+
+
 PARTS = {
-    "C01": dict(coq_props=["Properties_C01_tagged"], files=FILES,
-                generate=lambda rng, tier: (yield from _both(generate_rt(rng, tier), generate_frame(rng, tier))),
+    "C01": dict(coq_props=["Properties_C01_tagged", "Properties_C01_tagged_src", "Properties_C01_tagged_quick_src"],
+                files=FILES,
+                generate=_chain(generate_rt, generate_frame, generate_src_put, generate_src_get),
                 rule="tagged: every boundary/literal value +-2 and random bit-lengths through put/get/len/getlen and all "
                      "quick/32-bit forms at random alignments; fixed-width writer for widths 0..10 on the pool; "
                      "non-trivial = classes rt-len2..9 and legal fixed widths",
-                oracles={"tagged_rt": o_rt, "tagged_fixed": o_fixed, "frame_put": o_frame},
-                classify=lambda case, m: classify_frame(case, m) or classify_rt(case, m), search=search_rt,
+                oracles=dict({"tagged_rt": o_rt, "tagged_fixed": o_fixed, "frame_put": o_frame},
+                             **SRC_ORACLES_PUT, **SRC_ORACLES_GET),
+                classify=_first(classify_frame, classify_rt, classify_src), search=_searches(search_rt, search_src),
+                trusted_base=SRC_TRUSTED, assumptions=SRC_ASSUME,
                 configs_quick=["pinned", "O0"]),
-    "C04": dict(coq_props=["Properties_C04_tagged", "Properties_C04_readme"], files=FILES, generate=generate_c04,
-                rule="tagged: encoder bytes vs an independent Python reference of the documented sqlite4 format",
-                oracles={"tagged_rt": o_rt_c04}, classify=classify_rt, search=search_rt),
-    "C12": dict(coq_props=["Properties_C12_tagged"], files=FILES + ["src/varint.h"], generate=generate_add,
+    "C04": dict(coq_props=["Properties_C04_tagged", "Properties_C04_readme", "Properties_C04_tagged_src"], files=FILES,
+                generate=_chain(generate_c04, generate_src_put),
+                rule="tagged: encoder bytes vs an independent Python reference of the documented sqlite4 format; "
+                     "src_tagged_*: the same through the functions regenerated from the current source",
+                oracles=dict({"tagged_rt": o_rt_c04}, **SRC_ORACLES_PUT), classify=_first(classify_rt, classify_src),
+                search=_searches(search_rt, search_src), trusted_base=SRC_TRUSTED, assumptions=SRC_ASSUME),
+    "C12": dict(coq_props=["Properties_C12_tagged", "Properties_C12_tagged_src"], files=FILES + ["src/varint.h"],
+                trusted_base=SRC_TRUSTED, assumptions=SRC_ASSUME,
+                generate=_chain(generate_add, generate_src_add),
                 rule="tagged add: (stored value, amount, grow?) with sums crossing every width boundary both ways and "
                      "the int64 overflow edges; non-trivial = every class except 'nogrow-same'",
-                oracles={"tagged_add": o_add}, classify=classify_add,
+                oracles={"tagged_add": o_add, "src_tagged_add": o_src_none},
+                classify=_first(classify_add, classify_src),
                 configs_quick=["pinned", "O0"]),
-    "C14": dict(coq_props=["Properties_C14_tagged"], files=FILES, generate=generate_getn,
+    "C14": dict(coq_props=["Properties_C14_tagged", "Properties_C14_tagged_src"], files=FILES,
+                generate=_chain(generate_getn, generate_src_get),
                 rule="bounded tagged reader: every truncation of valid encodings and random bytes in an exact-size "
-                     "buffer ending at an inaccessible page",
-                oracles={"tagged_getn": o_getn}, classify=classify_getn),
-    "C05": dict(coq_props=["Properties_C05"], files=FILES, rule=RULE, generate=generate,
-                oracles=ORACLES_C05, classify=classify, search=search, minimise=["tagged_tuple_cmp"],
-                assumptions=["memcmp over min(len) then length, as C callers compare keys"],
+                     "buffer ending at an inaccessible page; src_tagged_*: the same through the regenerated functions",
+                oracles=dict({"tagged_getn": o_getn}, **SRC_ORACLES_GET), classify=_first(classify_getn, classify_src),
+                trusted_base=SRC_TRUSTED, assumptions=SRC_ASSUME),
+    "C05": dict(coq_props=["Properties_C05", "Properties_C05_src"], files=FILES, rule=RULE,
+                generate=_chain(generate, generate_src_put),
+                oracles=dict(ORACLES_C05, **SRC_ORACLES_PUT), classify=_first(classify, classify_src), search=search,
+                minimise=["tagged_tuple_cmp"], trusted_base=SRC_TRUSTED,
+                assumptions=["memcmp over min(len) then length, as C callers compare keys"] + SRC_ASSUME,
                 configs_quick=["pinned", "O0"]),
 }
